@@ -38,6 +38,12 @@ for sid in ids:
     try:
         r = subprocess.run(["git", "-C", wt, "apply", os.path.join(d, "patch.diff")], capture_output=True, text=True)
         if r.returncode != 0:
+            # a later fix may have touched neighbouring lines: try a three-way merge of the patch
+            subprocess.run(["git", "-C", wt, "checkout", "--", "."], capture_output=True)
+            r = subprocess.run(["git", "-C", wt, "apply", "--3way", os.path.join(d, "patch.diff")], capture_output=True, text=True)
+            if r.returncode == 0 and subprocess.run(["git", "-C", wt, "diff", "--name-only", "--diff-filter=U"], capture_output=True, text=True).stdout.strip():
+                r.returncode = 1
+        if r.returncode != 0:
             rows.append((sid, ",".join(props), "PATCH-DOES-NOT-APPLY", r.stderr.strip()[:200]))
             continue
         for p in props:
